@@ -63,6 +63,7 @@ type Engine struct {
 	Unverified map[string]bool // callees treated by default extern rule
 	ExternsUsed map[string]bool
 	Inlines    map[string]bool
+	Assumed    map[string]bool // 'assume' clauses used
 	curFunc    string
 	curProps   []string
 	oblSeq     map[string]int
@@ -75,12 +76,13 @@ type Engine struct {
 	monCache   map[string]*monInfo
 	subNames   map[string]string // sanitised sub-object function name -> heap key of its field
 	instHints  []*Term
+	localArrays []*Term // backing arrays of array-typed local variables of the function under verification
 }
 
 func NewEngine(p *Program) *Engine {
 	return &Engine{P: p, C: NewCtx(), heapSorts: map[string]*Sort{}, fnIDs: map[string]int{}, strLits: map[string]*Term{},
 		strLitVals: map[*Term]string{}, subAx: map[string]bool{}, typeTags: map[string]int{}, tagTypes: map[int]types.Type{},
-		Unverified: map[string]bool{}, ExternsUsed: map[string]bool{}, Inlines: map[string]bool{}, oblSeq: map[string]int{},
+		Unverified: map[string]bool{}, ExternsUsed: map[string]bool{}, Inlines: map[string]bool{}, Assumed: map[string]bool{}, oblSeq: map[string]int{},
 		specCache: map[*Clause]*boundExpr{}, specFnCache: map[string]*specFn{}, MaxInline: 4, freshRefs: map[*Term]bool{}, monCache: map[string]*monInfo{}, subNames: map[string]string{}}
 }
 
